@@ -82,8 +82,8 @@ type Finding struct {
 	Status    string          `json:"status"` // open | fixed
 	What      string          `json:"what"`
 	Signature string          `json:"signature"`
-	Also      []string        `json:"also,omitempty"`    // further signatures of the same root cause
-	Avoid     []string        `json:"avoid,omitempty"`   // generator tags excluded while the finding is open
+	Also      []string        `json:"also,omitempty"`  // further signatures of the same root cause
+	Avoid     []string        `json:"avoid,omitempty"` // generator tags excluded while the finding is open
 	Commit    string          `json:"commit,omitempty"`
 	Repro     json.RawMessage `json:"repro,omitempty"`
 	Exclude   string          `json:"exclude,omitempty"`
@@ -116,6 +116,9 @@ func Findings() []Finding {
 type Violation struct {
 	Signature string `json:"signature"` // root-cause oriented; matched against open findings
 	Detail    string `json:"detail"`
+	// Fatal: the process cannot go on after this one (a call that never returns): the case is
+	// saved and reported at once, without shrinking.
+	Fatal bool `json:"-"`
 }
 
 func (v Violation) String() string { return v.Signature + ": " + v.Detail }
@@ -289,6 +292,12 @@ func (c *Collector) Report(t TB, kase any, vs []Violation) {
 		c.mu.Lock()
 		c.lastFail = &failRec{Case: kase, V: v}
 		c.mu.Unlock()
+		if v.Fatal {
+			c.violations++
+			c.saveReplay()
+			c.writeEvidence()
+			os.Exit(1)
+		}
 		t.Fatalf("VIOLATED %s: %s", c.ID, v)
 	}
 }
@@ -423,6 +432,15 @@ func (c *Collector) finish(t *testing.T) {
 	}
 	if c.lastFail != nil && t.Failed() {
 		c.violations++
+		c.saveReplay()
+	} else if t.Failed() {
+		printf("HARNESS-FAIL property=%s test failed without a recorded violation\n", c.ID)
+	}
+	c.writeEvidence()
+}
+
+func (c *Collector) saveReplay() {
+	{
 		dir := filepath.Join(Root(), "replays", c.ID)
 		_ = os.MkdirAll(dir, 0o755)
 		rec := map[string]any{"property": c.ID, "signature": c.lastFail.V.Signature, "detail": c.lastFail.V.Detail, "case": c.lastFail.Case}
@@ -431,10 +449,7 @@ func (c *Collector) finish(t *testing.T) {
 		_ = os.WriteFile(path, b, 0o644)
 		printf("VIOLATION property=%s replay=%s\n", c.ID, path)
 		printf("  %s\n", c.lastFail.V)
-	} else if t.Failed() {
-		printf("HARNESS-FAIL property=%s test failed without a recorded violation\n", c.ID)
 	}
-	c.writeEvidence()
 }
 
 func (c *Collector) writeEvidence() {
@@ -446,12 +461,12 @@ func (c *Collector) writeEvidence() {
 	}
 	sort.Strings(hashes)
 	cov := map[string]any{
-		"evaluations":         c.evals,
-		"distinct_nontrivial": len(c.nontrivial),
-		"rule":                c.Rule,
-		"samples":             c.samples,
-		"classes":             c.classes,
-		"known_finding_hits":  c.knownHits,
+		"evaluations":             c.evals,
+		"distinct_nontrivial":     len(c.nontrivial),
+		"rule":                    c.Rule,
+		"samples":                 c.samples,
+		"classes":                 c.classes,
+		"known_finding_hits":      c.knownHits,
 		"known_findings_replayed": c.replayed,
 	}
 	for k, v := range c.extra {
